@@ -1,6 +1,74 @@
 import WhVerif.Util.Proto
+import WhVerif.Model.C15
 namespace WhVerif.Driver.C15
-open Lean WhVerif.Proto
-/-- ops of property C15 are named `c15.<name>`; return `none` for ops that are not ours -/
-def handle (_op : String) (_j : Json) : Option Json := none
+open Lean WhVerif.Proto WhVerif.C15
+
+/-- IEEE double instance of the cut arithmetic (what CPython's `float`, `math.log`, `<=` do) -/
+def floatArith : ConfArith Float Float where
+  isZero c := c == 0.0
+  log := Float.log
+  zero := 0.0
+  add := (· + ·)
+  le a b := decide (a ≤ b)
+  threshold B :=
+    match B with
+    | 0 => -(1.0 / 0.0)
+    | 1 => -(1.0 / 0.0)
+    | 2 => Float.log 0.5
+    | 3 => Float.log 0.5
+    | 4 => Float.log 0.99
+    | _ => 0.0
+
+def ofIntListList (l : List (List Int)) : Json := ofList ofIntList l
+def ofNatListList (l : List (List Nat)) : Json := ofList ofNatList l
+
+def stepJson : ForceStep → Json
+  | .skipUndetermined => Json.mkObj [("step", Json.str "skip")]
+  | .nothingAbundant => Json.mkObj [("step", Json.str "none")]
+  | .choose aff ins => Json.mkObj [("step", Json.str "choose"), ("affected", ofNatList aff), ("insert", ofIntList ins)]
+
+def verdictStr : Verdict → String
+  | .unchangedUndetermined => "unchanged-undetermined"
+  | .unchangedNothingAbundant => "unchanged-nothing-abundant"
+  | .perm => "perm"
+  | .fallback => "fallback"
+  | .inadmissible => "inadmissible"
+
+/-- a breakpoint `[position, [haplotypes], bits of the double]` -/
+def parseBp (j : Json) : Option (Breakpoint Float) := do
+  match ← asArr? j with
+  | [p, hs, c] =>
+    let bits ← asNat? c
+    some ⟨← asNat? p, ← natList? hs, Float.ofBits (UInt64.ofNat bits)⟩
+  | _ => none
+
+def handle (op : String) (j : Json) : Option Json :=
+  if op == "c15.force" then
+    -- one column: col, gv (genotype expanded to a list of alleles), out (column returned by the real code)
+    match getIntList? j "col", getIntList? j "gv", getIntList? j "out" with
+    | some col, some gv, some out =>
+      some ((stepJson (forceStep col gv)).setObjVal! "verdict" (Json.str (verdictStr (classify col gv out))))
+    | _, _, _ => some badInput
+  else if op == "c15.permute" then
+    match (getObj? j "cols").bind intListList?, getNatList? j "bps", (getObj? j "perms").bind natListList? with
+    | some cols, some bps, some perms => some (ofIntListList (permuteBlocks cols bps perms))
+    | _, _, _ => some badInput
+  else if op == "c15.cuts" then
+    match (getList? j "bps").bind (·.mapM parseBp), getNat? j "ploidy", getNat? j "B" with
+    | some bps, some ploidy, some B =>
+      let r := computeCutPositions floatArith bps ploidy B
+      some (Json.mkObj [("cuts", ofNatList r.1), ("hap_cuts", ofNatListList r.2)])
+    | _, _, _ => some badInput
+  else if op == "c15.thresholds" then
+    some (ofNatList ((List.range 6).map (fun B => (floatArith.threshold B).toBits.toNat)))
+  else if op == "c15.components" then
+    -- acc: accessible positions, cuts, cols: haplotype columns (for phased_pos)
+    match getNatList? j "acc", getNatList? j "cuts", (getObj? j "cols").bind intListList? with
+    | some acc, some cuts, some cols =>
+      let w := componentWrites acc acc.length cuts
+      let keys := (w.map (·.1)).eraseDups
+      let dict := keys.map (fun k => ofNatList [k, (dictGet w k).getD 0])
+      some (Json.mkObj [("dict", Json.arr dict.toArray), ("phased", ofNatList (phasedPos cols))])
+    | _, _, _ => some badInput
+  else none
 end WhVerif.Driver.C15
